@@ -294,6 +294,15 @@ class TrapView(VU):
                 ctx.check(oname("C19", T, "ensures", "values-maps-each-payload-oid-as-str-to-its-pythonised-value" + tag),
                           And(*[And(interp.eq(pairs[i][0], SStr(rt.f_oidstr(oids[i + 2].e))), interp.eq(pairs[i][1], SPy(rt.f_pyz(vals[i + 2].e))))
                                 for i in range(self.k)]))
+            # a view is read more than once (logged, then used): every later read gives what the first one gave
+            again = rt.getattr(interp, view, "values")
+            pairs2 = list(rt.dict_items(interp, again)) if isinstance(again, (PDict, dict)) else None
+            ctx.check(oname("C19", T, "ensures", "a-second-read-of-the-view-gives-the-same" + tag),
+                      ok and pairs2 is not None and len(pairs2) == len(pairs) and And(
+                          interp.eq(rt.getattr(interp, view, "origin"), addr),
+                          interp.eq(rt.getattr(interp, view, "uptime"), SPy(rt.f_pyz(vals[0].e))),
+                          interp.eq(rt.getattr(interp, view, "oid"), SPy(rt.f_pyz(vals[1].e))),
+                          *[And(interp.eq(a[0], b[0]), interp.eq(a[1], b[1])) for a, b in zip(pairs, pairs2)]))
         return "returns"
 
 
